@@ -33,6 +33,10 @@ func main() { hx.Main("C08", runC08) }
 type planStep struct {
 	Kind string `json:"kind"`
 	Mut  string `json:"mut"`
+	// Inner, for an RPC with a renter-side second phase: a complete RPC played on
+	// another stream against the same contract after the renter has read the host's
+	// intermediate response and before it answers
+	Inner *planStep `json:"inner,omitempty"`
 }
 
 type plan struct {
@@ -49,6 +53,9 @@ var kindMuts = map[string][]string{
 }
 
 var revisingKinds = []string{"roots", "append", "free", "fund", "replenish-accounts", "replenish-pools", "refresh-full", "refresh-partial", "renew"}
+
+// the RPCs in which the renter answers the host's intermediate response
+var twoPhaseKinds = []string{"append", "free", "replenish-accounts", "replenish-pools", "refresh-partial", "refresh-full", "renew"}
 
 type weighted struct {
 	kind string
@@ -76,9 +83,9 @@ func makePlan(seed uint64, nsteps int) plan {
 		total += sw.w
 	}
 	if r.Chance(1, 4) {
-		p.Steps = append(p.Steps, planStep{"form", formMuts[r.Intn(len(formMuts))]})
+		p.Steps = append(p.Steps, planStep{Kind: "form", Mut: formMuts[r.Intn(len(formMuts))]})
 	}
-	p.Steps = append(p.Steps, planStep{"form", "none"})
+	p.Steps = append(p.Steps, planStep{Kind: "form", Mut: "none"})
 	for i := 0; i < nsteps; i++ {
 		kind := ""
 		if i < 2 && r.Chance(3, 4) {
@@ -97,12 +104,16 @@ func makePlan(seed uint64, nsteps int) plan {
 		if ms := kindMuts[kind]; len(ms) > 0 && (r.Chance(9, 20) || kind == "form") && !(i < 2 && kind == "append") {
 			mut = ms[r.Intn(len(ms))]
 		}
-		p.Steps = append(p.Steps, planStep{kind, mut})
+		ps := planStep{Kind: kind, Mut: mut}
+		if mut == "none" && contains(twoPhaseKinds, kind) && r.Chance(1, 5) {
+			ps.Inner = &planStep{Kind: revisingKinds[r.Intn(len(revisingKinds))], Mut: "none"}
+		}
+		p.Steps = append(p.Steps, ps)
 		if p.Flavor == "short" && i >= 3 && r.Chance(1, 6) {
-			p.Steps = append(p.Steps, planStep{"expire", "none"})
+			p.Steps = append(p.Steps, planStep{Kind: "expire", Mut: "none"})
 			// two well-formed revising RPCs right after the proof height is reached
 			for j := 0; j < 2; j++ {
-				p.Steps = append(p.Steps, planStep{revisingKinds[r.Intn(len(revisingKinds))], "none"})
+				p.Steps = append(p.Steps, planStep{Kind: revisingKinds[r.Intn(len(revisingKinds))], Mut: "none"})
 			}
 		}
 	}
@@ -143,7 +154,12 @@ func runPlan(w *world, p plan) *scenResult {
 	return &scenResult{sc: sc, plan: p, cfg: cfg}
 }
 
-func (sc *scen) step(st planStep, flavor string) {
+func (sc *scen) step(st planStep, flavor string) { sc.stepX(st, flavor, false) }
+
+// stepX plays one step.  inner: the step runs while another RPC of this renter on
+// the same contract is waiting for the renter's second message, i.e. while that
+// RPC's handler holds the contract lock: it has to be refused and to change nothing.
+func (sc *scen) stepX(st planStep, flavor string, inner bool) {
 	w := sc.w
 	if st.Kind == "expire" {
 		// mine until the tip is at the proof height of the current contract ("none"),
@@ -175,9 +191,20 @@ func (sc *scen) step(st planStep, flavor string) {
 	}
 	n0 := w.rec.ncalls()
 	sw0 := w.ss.nwrites()
-	snap0 := sc.snapshot()
+	snap0 := ""
+	if !inner {
+		snap0 = sc.snapshot()
+	}
 	tip, _ := w.ec.Tip()
 	height := tip.Height
+	innerRan := false
+	if st.Inner != nil && !inner {
+		w.mid = func() {
+			innerRan = true
+			sc.stepX(*st.Inner, flavor, true)
+			n0 = w.rec.ncalls() // what follows is the outer RPC's
+		}
+	}
 	var o *outcome
 	switch st.Kind {
 	case "form":
@@ -203,10 +230,17 @@ func (sc *scen) step(st planStep, flavor string) {
 	default:
 		panic("unknown step kind " + st.Kind)
 	}
+	w.mid = nil
 	if o.ct != nil && st.Kind != "latest" && st.Kind != "form" && height >= o.ct.rev.ProofHeight {
 		o.mustReject = true // the proof window of the named contract is open
 	}
-	les := w.quiesce()
+	var les []logEntry
+	if inner {
+		o.mustReject = true // the contract is locked by the RPC that is waiting for its second message
+		les = w.takeFinished()
+	} else {
+		les = w.quiesce()
+	}
 	verdict := classify(o.err, les)
 	calls := w.rec.since(n0)
 	var ok []call
@@ -219,6 +253,15 @@ func (sc *scen) step(st planStep, flavor string) {
 		verdict = "VOkNoRev"
 	}
 	where := fmt.Sprintf("%s/%s", o.kind, o.mut)
+	if inner {
+		where = "interleaved " + where
+		if len(calls) > 0 || verdict == "VOk" {
+			sc.failf("c08-rpc-on-locked-contract-accepted", "%s: played while another RPC on the same contract was waiting for the renter's second message (its handler holds the contract lock): the server did not refuse it (verdict %s, %d Contractor calls)",
+				where, verdict, len(calls))
+		}
+	} else if st.Inner != nil && !innerRan {
+		where += " (interleaving not reached)"
+	}
 
 	// ---- monitors on every revision the server signed and handed to the Contractor
 	for _, c := range calls {
@@ -309,6 +352,19 @@ func (sc *scen) step(st planStep, flavor string) {
 		} else if fce.V2FileContract != sc.cur.rev {
 			sc.failf("c08-new-contract-not-confirmed", "%s: the confirmed contract %d differs from the one the host stored", where, sc.cur.abs)
 		}
+	}
+
+	if inner {
+		// the contract is locked: its state is read, against the ground truth, when the outer RPC is done
+		if w.ss.nwrites() != sw0 {
+			sc.failf("c08-rejected-request-changed-state", "%s (%s): the sector store was written", where, verdict)
+		}
+		detail := ""
+		if len(les) > 0 {
+			detail = les[len(les)-1].Err
+		}
+		sc.steps = append(sc.steps, stepLog{Kind: "interleaved:" + o.kind, Mut: o.mut, Verdict: verdict, Detail: detail})
+		return
 	}
 
 	// ---- a request that was not accepted changes nothing
@@ -580,11 +636,11 @@ func raceScenario(w *world, seed uint64) []failure {
 	runCounter++
 	sc := newScen(w, seed*1000003+runCounter)
 	sc.r = rng.New(seed + 5)
-	sc.step(planStep{"form", "none"}, "rich")
+	sc.step(planStep{Kind: "form", Mut: "none"}, "rich")
 	if sc.cur == nil {
 		return sc.fails
 	}
-	sc.step(planStep{"append", "none"}, "rich")
+	sc.step(planStep{Kind: "append", Mut: "none"}, "rich")
 	for round := 0; round < 4; round++ {
 		ct := sc.cur
 		old := ct.rev
@@ -867,26 +923,26 @@ func runC08(c *hx.Ctx) {
 		// a scripted scenario first: the renewal id is asked for before the renewal exists
 		if i == 0 {
 			p.Flavor = "rich"
-			p.Steps = []planStep{{"form", "none"}, {"append", "none"}, {"latest", "renewal-id"}, {"renew", "none"}, {"append", "none"},
-				{"fund", "none"}, {"latest", "none"}, {"refresh-partial", "none"}, {"roots", "none"}, {"refresh-full", "none"}, {"free", "none"}}
+			p.Steps = []planStep{{Kind: "form", Mut: "none"}, {Kind: "append", Mut: "none"}, {Kind: "latest", Mut: "renewal-id"}, {Kind: "renew", Mut: "none"}, {Kind: "append", Mut: "none"},
+				{Kind: "fund", Mut: "none"}, {Kind: "latest", Mut: "none"}, {Kind: "refresh-partial", Mut: "none"}, {Kind: "roots", Mut: "none"}, {Kind: "refresh-full", Mut: "none"}, {Kind: "free", Mut: "none"}}
 		}
 		switch i {
 		case 1: // every revising RPC on a contract id that has been renewed / refreshed
 			p.Flavor = "rich"
-			p.Steps = []planStep{{"form", "none"}, {"append", "none"}, {"append", "none"}, {"fund", "none"}, {"renew", "none"}}
+			p.Steps = []planStep{{Kind: "form", Mut: "none"}, {Kind: "append", Mut: "none"}, {Kind: "append", Mut: "none"}, {Kind: "fund", Mut: "none"}, {Kind: "renew", Mut: "none"}}
 			for _, k := range revisingKinds {
-				p.Steps = append(p.Steps, planStep{k, "renewed-cid"})
+				p.Steps = append(p.Steps, planStep{Kind: k, Mut: "renewed-cid"})
 			}
-			p.Steps = append(p.Steps, planStep{"append", "none"}, planStep{"refresh-partial", "none"}, planStep{"roots", "renewed-cid"},
-				planStep{"fund", "renewed-cid"}, planStep{"free", "renewed-cid"}, planStep{"latest", "none"})
+			p.Steps = append(p.Steps, planStep{Kind: "append", Mut: "none"}, planStep{Kind: "refresh-partial", Mut: "none"}, planStep{Kind: "roots", Mut: "renewed-cid"},
+				planStep{Kind: "fund", Mut: "renewed-cid"}, planStep{Kind: "free", Mut: "renewed-cid"}, planStep{Kind: "latest", Mut: "none"})
 		case 3: // renew / refresh at the host's collateral limit on a contract grown in un-broadcast revisions
 			p.Flavor = "rich"
-			p.Steps = []planStep{{"form", "none"}, {"append", "none"}, {"append", "none"}, {"fund", "none"}, {"append", "none"}, {"append", "none"},
-				{"renew", "coll-edge-above"}, {"renew", "coll-max-exact"}, {"refresh-partial", "coll-edge-above"}, {"refresh-full", "coll-edge-above"},
-				{"refresh-partial", "coll-max-exact"}, {"renew", "coll-edge"}, {"append", "none"}, {"append", "none"},
-				{"renew", "coll-edge-above"}, {"refresh-partial", "coll-edge-below"}, {"append", "none"}, {"fund", "overflow-early"},
-				{"fund", "overflow-early-2"}, {"fund", "overflow"}, {"replenish-accounts", "overflow-early"}, {"replenish-pools", "overflow"},
-				{"renew", "coll-edge-below"}, {"roots", "none"}}
+			p.Steps = []planStep{{Kind: "form", Mut: "none"}, {Kind: "append", Mut: "none"}, {Kind: "append", Mut: "none"}, {Kind: "fund", Mut: "none"}, {Kind: "append", Mut: "none"}, {Kind: "append", Mut: "none"},
+				{Kind: "renew", Mut: "coll-edge-above"}, {Kind: "renew", Mut: "coll-max-exact"}, {Kind: "refresh-partial", Mut: "coll-edge-above"}, {Kind: "refresh-full", Mut: "coll-edge-above"},
+				{Kind: "refresh-partial", Mut: "coll-max-exact"}, {Kind: "renew", Mut: "coll-edge"}, {Kind: "append", Mut: "none"}, {Kind: "append", Mut: "none"},
+				{Kind: "renew", Mut: "coll-edge-above"}, {Kind: "refresh-partial", Mut: "coll-edge-below"}, {Kind: "append", Mut: "none"}, {Kind: "fund", Mut: "overflow-early"},
+				{Kind: "fund", Mut: "overflow-early-2"}, {Kind: "fund", Mut: "overflow"}, {Kind: "replenish-accounts", Mut: "overflow-early"}, {Kind: "replenish-pools", Mut: "overflow"},
+				{Kind: "renew", Mut: "coll-edge-below"}, {Kind: "roots", Mut: "none"}}
 		case 2, 4, 5:
 			// the revisability boundary: tip exactly at the proof height (2), one below
 			// it (4: the last height at which consensus still takes a revision), one
@@ -894,11 +950,31 @@ func runC08(c *hx.Ctx) {
 			// that is accepted below the boundary closes the contract)
 			p.Flavor = "short"
 			at := map[int]string{2: "none", 4: "ph-1", 5: "ph+1"}[i]
-			p.Steps = []planStep{{"form", "none"}, {"append", "none"}, {"append", "none"}, {"fund", "none"}, {"expire", at}}
+			p.Steps = []planStep{{Kind: "form", Mut: "none"}, {Kind: "append", Mut: "none"}, {Kind: "append", Mut: "none"}, {Kind: "fund", Mut: "none"}, {Kind: "expire", Mut: at}}
 			for _, k := range revisingKinds {
-				p.Steps = append(p.Steps, planStep{k, "none"})
+				p.Steps = append(p.Steps, planStep{Kind: k, Mut: "none"})
 			}
-			p.Steps = append(p.Steps, planStep{"latest", "none"})
+			p.Steps = append(p.Steps, planStep{Kind: "latest", Mut: "none"})
+		}
+		switch i {
+		case 6, 7:
+			// interleaving: every RPC with a renter-side second phase is paused after the
+			// host's intermediate response; a complete second RPC of every revising kind
+			// is played against the same contract on another stream; then the first is
+			// finished.  6: the revising RPCs as the paused one, 7: refresh / renew.
+			p.Flavor = "rich"
+			p.Steps = []planStep{{Kind: "form", Mut: "none"}, {Kind: "append", Mut: "none"}, {Kind: "append", Mut: "none"}, {Kind: "fund", Mut: "none"}}
+			outers := twoPhaseKinds[:4]
+			if i == 7 {
+				outers = twoPhaseKinds[4:]
+			}
+			for _, outer := range outers {
+				for _, in := range revisingKinds {
+					p.Steps = append(p.Steps, planStep{Kind: outer, Mut: "none", Inner: &planStep{Kind: in, Mut: "none"}})
+				}
+				p.Steps = append(p.Steps, planStep{Kind: "append", Mut: "none"})
+			}
+			p.Steps = append(p.Steps, planStep{Kind: "latest", Mut: "none"})
 		}
 		res, dnc := e.run(p)
 		if dnc != nil {
